@@ -146,6 +146,37 @@ func (t *tnt) base(v ssa.Value, at *ssa.BasicBlock, x *tctx) (bool, string) {
 		case *ssa.Global:
 			return false, "package variable " + a.Name()
 		case *ssa.FreeVar:
+			// a variable captured by reference: the cell lives in the enclosing function; every store to it, there and
+			// in sibling closures, must be clean
+			if cell := capturedCell(a); cell != nil {
+				for _, r := range refs(cell) {
+					if st, ok := r.(*ssa.Store); ok && st.Addr == ssa.Value(cell) {
+						if ok, why := t.cl(st.Val, st.Block(), x); !ok {
+							return false, "captured variable " + a.Name() + ": " + why
+						}
+					}
+				}
+				// stores made through the capture in other closures of the same parent
+				dirty := ""
+				for _, sib := range a.Parent().Parent().AnonFuncs {
+					for i, fv := range sib.FreeVars {
+						if i >= len(sib.FreeVars) || capturedCell(fv) != cell {
+							continue
+						}
+						for _, r := range refs(fv) {
+							if st, ok := r.(*ssa.Store); ok && st.Addr == ssa.Value(fv) {
+								if ok, why := t.cl(st.Val, st.Block(), x); !ok {
+									dirty = why
+								}
+							}
+						}
+					}
+				}
+				if dirty != "" {
+					return false, "captured variable " + a.Name() + ": " + dirty
+				}
+				return true, ""
+			}
 			return false, "captured variable " + a.Name()
 		}
 		return false, "indirect load at " + t.pos(y)
@@ -693,4 +724,31 @@ func (c *Ctx) allFuncsOfPkg(p *ssa.Package) []*ssa.Function {
 		out = append(out, init)
 	}
 	return out
+}
+
+
+// capturedCell: the Alloc in the enclosing function that free variable fv refers to (capture by reference), or nil.
+func capturedCell(fv *ssa.FreeVar) *ssa.Alloc {
+	fn := fv.Parent()
+	if fn == nil || fn.Parent() == nil {
+		return nil
+	}
+	idx := -1
+	for i, v := range fn.FreeVars {
+		if v == fv {
+			idx = i
+		}
+	}
+	if idx < 0 {
+		return nil
+	}
+	var cell *ssa.Alloc
+	eachInstr(fn.Parent(), func(_ *ssa.BasicBlock, _ int, ins ssa.Instruction) {
+		if mc, ok := ins.(*ssa.MakeClosure); ok && mc.Fn == ssa.Value(fn) && idx < len(mc.Bindings) {
+			if al, ok := mc.Bindings[idx].(*ssa.Alloc); ok {
+				cell = al
+			}
+		}
+	})
+	return cell
 }
